@@ -42,3 +42,16 @@ package model
 //@   ensures [C18.export.model.expireddata] (forall c int :: 0 <= c && c <= MaxUint64 && has(ExpiredData, c) ==> contains(genesis.ExpiredDataList, ExpiredData[c]))
 //@       && (forall j int :: 0 <= j && j < len(genesis.ExpiredDataList) ==> has(ExpiredData, genesis.ExpiredDataList[j].Height) && ExpiredData[genesis.ExpiredDataList[j].Height] == genesis.ExpiredDataList[j])
 //@       && (forall a int, b int :: 0 <= a && a < b && b < len(genesis.ExpiredDataList) ==> genesis.ExpiredDataList[a].Height != genesis.ExpiredDataList[b].Height)
+
+// EndBlocker: the models scheduled for this height are deleted, nothing else is, and the schedule entry is consumed
+//@ func EndBlocker(ctx, k)
+//@   nopanic [C02.modelend.nopanic]
+//@   modifies Metadata, Model, ExpiredData[H]
+//@   ensures [C11.modelend.deleted] old(has(ExpiredData, H)) ==> !has(ExpiredData, H) && (forall q int :: 0 <= q && q < len(old(ExpiredData[H].Data)) ==> !has(Metadata, old(ExpiredData[H].Data)[q]))
+//@   ensures [C11.modelend.only] forall d string :: !(old(has(ExpiredData, H)) && contains(old(ExpiredData[H].Data), d)) ==> Metadata[d] == old(Metadata[d]) && (has(Metadata, d) <==> old(has(Metadata, d)))
+//@   ensures [C11.modelend.none] !old(has(ExpiredData, H)) ==> forall d string :: Metadata[d] == old(Metadata[d]) && (has(Metadata, d) <==> old(has(Metadata, d)))
+//@   loop L1 invariant -1 <= rangeindex && rangeindex < len(expiredData.Data)
+//@   loop L1 invariant forall q int :: 0 <= q && q <= rangeindex ==> !has(Metadata, expiredData.Data[q])
+//@   loop L1 invariant forall d string :: has(Metadata, d) ==> old(has(Metadata, d)) && Metadata[d] == old(Metadata[d])
+//@   loop L1 invariant forall d string :: !contains(expiredData.Data, d) ==> Metadata[d] == old(Metadata[d]) && (has(Metadata, d) <==> old(has(Metadata, d)))
+//@   loop L1 decreases [C02.modelend.term] len(expiredData.Data) - rangeindex
